@@ -77,3 +77,53 @@ Theorem C02_exact_central : forall (F : FieldOps) (L : FieldLaws F) (m : Mesh F)
   apply_axis F (cenAW F m u) (cenAP F m u) (cenAE F m u) x a c = kmul F uc be.
 Proof. exact exact_central_cartesian. Qed.
 Print Assumptions C02_exact_central.
+
+From Coq Require Import Reals.
+From PFV Require Import Boundary Solver StencilThy ConservThy MaxPrincipleThy MaxPrincipleModel ComparisonThy.
+
+(* ---- stability half of convergence, on every grid class and dimension, non-uniform spacing included (Theory/ComparisonThy.v):
+   if the exact solution e (sampled at the cell centres, extended to the ghost cells by the boundary relations) satisfies the rows
+   of the assembled system up to a truncation error tau, the discrete solution x is within  max|tau| / min(kap)  of it.
+   kap = alpha/dt + beta > 0;  D >= 0;  u discretely divergence-free, upwind scheme;  closures: Dirichlet, no-flux, Robin of one
+   sign, periodic.  With the exactness theorems above (tau = 0 on the polynomial families, i.e. second-order truncation on smooth
+   solutions) this is the Lax argument; the Taylor remainder bound itself is NOT formalised. ---- *)
+Section C02b.
+Import ListNotations.
+Local Open Scope R_scope.
+Theorem C02_error_bounded_by_truncation : forall (m : Mesh ROps) (D u : fvar ROps) (cells : list cell),
+  cells <> [] ->
+  (forall c a, In c cells -> In a (active_axes ROps m) -> (1 <= cidx a c <= mN ROps m a)%nat /\ signs_ok m D c a) ->
+  (forall c, In c cells -> rsuml (fun a => divrow ROps m u a c) (active_axes ROps m) = 0) ->
+  forall (kap s x e tau : cvar ROps) (T k0' : R),
+  0 <= T -> 0 < k0' ->
+  (forall c, In c cells -> k0' <= kap c) ->
+  (forall c, In c cells -> Lrow m D u kap x c = s c) ->
+  (forall c, In c cells -> Lrow m D u kap e c = s c + tau c) ->
+  (forall c, In c cells -> Rabs (tau c) <= T) ->
+  (forall c a, In c cells -> In a (active_axes ROps m) ->
+     nb_homog cells (fun c => x c - e c) c (cdn a c) /\ nb_homog cells (fun c => x c - e c) c (cup a c)) ->
+  forall c, In c cells -> Rabs (x c - e c) <= T / k0'.
+Proof. exact error_bounded_by_truncation. Qed.
+Theorem C02_stability : forall (m : Mesh ROps) (D u : fvar ROps) (kap x e f g : cvar ROps) (E : R) (cells : list cell),
+  cells <> [] ->
+  (forall c a, In c cells -> In a (active_axes ROps m) -> (1 <= cidx a c <= mN ROps m a)%nat /\ signs_ok m D c a) ->
+  (forall c, In c cells -> Lrow m D u kap x c = f c) ->
+  (forall c, In c cells -> Lrow m D u kap e c = g c) ->
+  (forall c, In c cells -> rsuml (fun a => divrow ROps m u a c) (active_axes ROps m) = 0) ->
+  (forall c, In c cells -> 0 < kap c) ->
+  0 <= E -> (forall c, In c cells -> Rabs (f c - g c) <= kap c * E) ->
+  (forall c a, In c cells -> In a (active_axes ROps m) ->
+     nb_homog cells (fun c => x c - e c) c (cdn a c) /\ nb_homog cells (fun c => x c - e c) c (cup a c)) ->
+  forall c, In c cells -> Rabs (x c - e c) <= E.
+Proof. exact stability. Qed.
+(* the closure hypothesis follows from the boundary rows *)
+Theorem C02_robin_closure : forall b aoh c xg xi eg ei : R,
+  b / 2 + aoh <> 0 -> 0 <= b * (b / 2 + aoh) ->
+  (b / 2 + aoh) * xg + (b / 2 - aoh) * xi = c ->
+  (b / 2 + aoh) * eg + (b / 2 - aoh) * ei = c ->
+  exists rho, rho <= 1 /\ xg - eg = rho * (xi - ei).
+Proof. exact robin_ghost_ratio. Qed.
+End C02b.
+Print Assumptions C02_error_bounded_by_truncation.
+Print Assumptions C02_stability.
+Print Assumptions C02_robin_closure.
